@@ -107,9 +107,9 @@ class BlockGen:
     # ---- statements
     def time_label(self):
         r = self.rng.random()
-        if r < 0.6:
+        if r < 0.8:
             return {"k": "rel", "e": ilit(self.rng.choice([0, 1, 5, 10]))}
-        return {"k": "abs", "t": self.rng.choice([0, 5, 10, 20, 30, -1])}
+        return {"k": "abs", "t": self.rng.choice([0, 5, 10, 20, 30, 30, 40, 60, -1])}
 
     def simple(self):
         r = self.rng.random()
@@ -501,4 +501,73 @@ def regalloc_scenarios(seed, n, start_id=1):
         for c in chunks:
             body.extend(c)
         out.append({"id": start_id + i, "cfg": cfg, "vars": [], "body": body})
+    return out
+
+
+# ------------------------------------------------------------------------------------------------
+# C07: jump graphs (flat programs with arbitrary forward / backward jumps)
+
+def graph_program(rng, pid, cfg, nslots, regs):
+    """regs: int registers to use.  Each slot: call | goto | cond goto | counting goto | interrupt label."""
+    slots = []
+    targeted = set()
+    for i in range(nslots):
+        r = rng.random()
+        tgt = rng.randrange(nslots + 1)
+        if r < 0.4:
+            slots.append(call(101, [var(rng.choice(regs))]) if rng.random() < 0.5 else call(100, []))
+            continue
+        if r < 0.48:
+            slots.append({"k": "assign", "var": var(rng.choice(regs)), "op": rng.choice(["=", "+=", "-="]),
+                          "value": ilit(rng.choice([0, 1, 2]))})
+            continue
+        if r < 0.52:
+            slots.append({"k": "interrupt", "e": ilit(rng.choice([1, 2]))})
+            continue
+        targeted.add(tgt)
+        lab = "L%d" % tgt
+        if r < 0.62:
+            s = {"k": "jump", "jump": "goto", "label": lab}
+        elif r < 0.85:
+            a = var(rng.choice(regs))
+            b = rng.choice([ilit(0), ilit(1), var(rng.choice(regs))])
+            s = {"k": "condjump", "kw": rng.choice(["if", "if", "unless"]), "cond": binop(rng.choice(["==", "!=", "<", ">"]), a, b),
+                 "jump": "goto", "label": lab}
+        else:
+            s = {"k": "condjump", "kw": "if", "cond": {"k": "xcr", "op": "--", "order": "pre", "var": var(rng.choice(regs))},
+                 "jump": "goto", "label": lab}
+        if rng.random() < 0.15:
+            s["time"] = rng.choice([0, 5, 10])
+        if rng.random() < 0.08:
+            s["diff"] = rng.choice(["E", "NH", "EN"])
+        slots.append(s)
+    body = []
+    for i, s in enumerate(slots):
+        if i in targeted:
+            # the label sits before or after the time label of its slot
+            if rng.random() < 0.5:
+                body.append({"k": "label", "name": "L%d" % i})
+        r = rng.random()
+        if r < 0.25:
+            body.append({"k": "rel", "e": ilit(rng.choice([5, 10]))})
+        elif r < 0.3:
+            body.append({"k": "abs", "t": rng.choice([0, 3, -1])})
+        if i in targeted and not any(b.get("k") == "label" and b.get("name") == "L%d" % i for b in body):
+            body.append({"k": "label", "name": "L%d" % i})
+        body.append(s)
+    if nslots in targeted:
+        if rng.random() < 0.3:
+            body.append({"k": "rel", "e": ilit(5)})
+        body.append({"k": "label", "name": "L%d" % nslots})
+    if rng.random() < 0.5:
+        body.append(call(100, []))
+    return {"id": pid, "cfg": cfg, "vars": [{"id": "r%d" % r, "ty": "i"} for r in regs], "body": body}
+
+
+def graph_programs(seed, n, cfg, max_slots=8, start_id=1):
+    rng = random.Random(seed)
+    out = []
+    for i in range(n):
+        regs = rng.sample(INT_REGS, rng.choice([1, 2, 2]))
+        out.append(graph_program(rng, start_id + i, cfg, rng.choice(range(2, max_slots + 1)), regs))
     return out
